@@ -559,7 +559,9 @@ pub struct TsanReport {
     pub summary: String,
 }
 
-pub const TSAN_BIN: &str = "/verif/tsan/target/x86_64-unknown-linux-gnu/release/vtsan";
+pub fn tsan_bin() -> String {
+    format!("{}/tsan/target/x86_64-unknown-linux-gnu/release/vtsan", verif_root())
+}
 
 fn tsan_strategy() -> BoxedStrategy<Vec<u8>> {
     let code = proptest::sample::select(vec![0u8, 0, 1, 2, 3, 4, 4, 4, 4, 5, 6]);
@@ -579,19 +581,54 @@ fn tsan_strategy() -> BoxedStrategy<Vec<u8>> {
 
 pub fn run_tsan(cases_hex: &[String]) -> (Vec<TsanReport>, usize, Option<String>) {
     use std::io::Write;
-    let path = format!("{VERIF}/work/c20_tsan_cases_{}.txt", std::process::id());
-    let _ = std::fs::create_dir_all(format!("{VERIF}/work"));
+    let path = format!("{}/work/c20_tsan_cases_{}.txt", verif_root(), std::process::id());
+    let _ = std::fs::create_dir_all(format!("{}/work", verif_root()));
     if let Ok(mut f) = std::fs::File::create(&path) {
         for c in cases_hex {
             let _ = writeln!(f, "{c}");
         }
     }
-    let out = std::process::Command::new(TSAN_BIN).arg(&path).env("TSAN_OPTIONS", "halt_on_error=0 exitcode=0 report_thread_leaks=0").output();
-    let _ = std::fs::remove_file(&path);
-    let out = match out {
-        Ok(o) => o,
-        Err(e) => return (vec![], 0, Some(format!("cannot run the TSan binary {TSAN_BIN}: {e}"))),
+    // run with a watchdog: a hang is reported as inconclusive, never as a violation
+    let errp = format!("{path}.stderr");
+    let outp = format!("{path}.stdout");
+    let child = std::process::Command::new(tsan_bin())
+        .arg(&path)
+        .env("TSAN_OPTIONS", "halt_on_error=0 exitcode=0 report_thread_leaks=0")
+        .stdout(std::fs::File::create(&outp).map(std::process::Stdio::from).unwrap_or(std::process::Stdio::null()))
+        .stderr(std::fs::File::create(&errp).map(std::process::Stdio::from).unwrap_or(std::process::Stdio::null()))
+        .spawn();
+    let mut child = match child {
+        Ok(c) => c,
+        Err(e) => return (vec![], 0, Some(format!("cannot run the TSan binary {}: {e}", tsan_bin()))),
     };
+    let t0 = std::time::Instant::now();
+    let limit = std::time::Duration::from_secs(60 + cases_hex.len() as u64 / 4);
+    let status = loop {
+        match child.try_wait() {
+            Ok(Some(st)) => break Some(st),
+            Ok(None) if t0.elapsed() > limit => {
+                let _ = child.kill();
+                let _ = child.wait();
+                break None;
+            }
+            Ok(None) => std::thread::sleep(std::time::Duration::from_millis(50)),
+            Err(_) => break None,
+        }
+    };
+    let stdout_text = std::fs::read_to_string(&outp).unwrap_or_default();
+    let stderr_text = std::fs::read(&errp).map(|b| String::from_utf8_lossy(&b).to_string()).unwrap_or_default();
+    let _ = std::fs::remove_file(&path);
+    let _ = std::fs::remove_file(&outp);
+    let _ = std::fs::remove_file(&errp);
+    let Some(status) = status else {
+        return (vec![], 0, Some(format!("the TSan binary did not finish {} thread programs within {} s and was stopped", cases_hex.len(), limit.as_secs())));
+    };
+    struct Out {
+        status: std::process::ExitStatus,
+        stdout: Vec<u8>,
+        stderr: Vec<u8>,
+    }
+    let out = Out { status, stdout: stdout_text.into_bytes(), stderr: stderr_text.into_bytes() };
     let stdout = String::from_utf8_lossy(&out.stdout).to_string();
     let ran = stdout.lines().find_map(|l| l.strip_prefix("TSAN-CASES ")).and_then(|r| r.split_whitespace().next()).and_then(|n| n.parse::<usize>().ok());
     let Some(ran) = ran else {
